@@ -23,8 +23,9 @@ def _evaluator(obj, which):
         obj.evaluator = E.CurveEvaluator2() if obj.pdimension == 1 else E.SurfaceEvaluator2()
 
 
-def h_curve_ders(cx, sp, order, evaluator='default'):
-    obj, info = shapes.build(cx, sp)
+def h_curve_ders(cx, sp, order, evaluator='default', span=None):
+    kw = {'find_span_func': getattr(geo.M('helpers'), span)} if span else {}
+    obj, info = shapes.build(cx, sp, **kw)
     _evaluator(obj, evaluator)
     K = info['K'][0]
     p = sp['degs'][0]
@@ -190,6 +191,9 @@ def instances(tier):
                     continue
                 add('ders', h_curve_ders, spr, timeout=1800, order=order)
         add('ders', h_curve_ders, spec('curve', (p,), ((1,),), rational=False, lo=2, hi=5), order=p + 1)
+        for m in [(1,), (p,), (1, 1, 1), (1, 2) if p >= 2 else (1, 1)]:
+            add('ders', h_curve_ders, spec('curve', (p,), (m,), rational=False, dim=2), order=p + 1, span='find_span_binsearch')
+        add('ders', h_curve_ders, spec('curve', (p,), ((1, 1),), rational=True, dim=2), order=1, span='find_span_binsearch')
         if p >= 2:
             for m in [(), (1,), (p - 1,), (1, 1)]:
                 add('hodograph', h_hodograph_curve, spec('curve', (p,), (m,), rational=False, dim=3))
